@@ -392,13 +392,49 @@ pub fn bundle(names: Vec<&'static str>, parser_strings: bool) -> BoxedStrategy<B
                     ovf = Some(1);
                 }
             }
+            // coupled "transition" mode (values 3..=6): any real IANA zone, receiver within a day of one of its
+            // listed transitions (transitions near a local midnight or with an unusual shift are preferred): the
+            // inputs on which start-of-day / hours-in-day / wall-clock arithmetic wrappers can differ from a
+            // look-alike core method. The fields of `a` are then the UTC reading of the instant (an identifier
+            // outside ZONES is placed with offset 0).
+            let mut zone_name = ZONES[z1].0.to_string();
+            let mut zone2_name = ZONES[z2].0.to_string();
+            if (3..=6).contains(&mode) {
+                let pts = transition_points();
+                if !pts.is_empty() {
+                    let h = (ns.unsigned_abs() as usize).wrapping_mul(2654435761) ^ (k as usize) << 7 ^ era_year as usize;
+                    // one transition-mode case in eight goes to the class "the skipped interval contains a local
+                    // midnight strictly inside" (the day starts at neither 00:00 nor the resolution of 00:00)
+                    let strict = midnight_inside_gap_points();
+                    let use_strict = (h >> 3) % 8 == 0 && !strict.is_empty();
+                    let (name, t) = if use_strict { &strict[(h >> 6) % strict.len()] } else { &pts[h % pts.len()] };
+                    let delta = match if use_strict { 3 } else { (h >> 20) % 6 } {
+                        0 => 0i64,
+                        1 => -1,
+                        2 => -86_400 + ((h >> 8) % 7200) as i64,
+                        3 => ((h >> 8) % 86_400) as i64,
+                        4 => -(((h >> 8) % 86_400) as i64),
+                        _ => 86_400 - ((h >> 8) % 7200) as i64,
+                    };
+                    let inst = t + delta;
+                    let (y, mo, d) = crate::refm::civil::from_days(inst.div_euclid(86_400));
+                    let sod = inst.rem_euclid(86_400);
+                    if (-270_000..=270_000).contains(&y) {
+                        a = [y as i32, mo as i32, d as i32, (sod / 3600) as i32, (sod / 60 % 60) as i32, (sod % 60) as i32, a[6], a[7], a[8]];
+                        zone_name = name.clone();
+                        if same & 1 == 0 {
+                            zone2_name = name.clone();
+                        }
+                    }
+                }
+            }
             let s = if parser_strings { compose_string(&a, z1, CALS[c1], style) } else { ident_string(k, CALS[c1]) };
             Bundle {
                 f: f.to_string(),
                 a,
                 b,
-                zone: ZONES[z1].0.to_string(),
-                zone2: ZONES[z2].0.to_string(),
+                zone: zone_name,
+                zone2: zone2_name,
                 cal: CALS[c1].to_string(),
                 cal2: CALS[c2].to_string(),
                 dur,
@@ -456,4 +492,53 @@ pub fn project_units(b: &Bundle, lo: u8, hi: u8, require_smallest: bool) -> Bund
         }
     }
     c
+}
+
+
+/// (zone, transition second) pairs of every real zone's listed transitions; transitions whose local time just
+/// before or after lies within 90 minutes of a midnight, or whose shift is not one hour, are listed four times.
+pub fn transition_points() -> &'static Vec<(String, i64)> {
+    static T: std::sync::OnceLock<Vec<(String, i64)>> = std::sync::OnceLock::new();
+    T.get_or_init(|| {
+        let mut out = vec![];
+        for z in crate::props::c13::real_tables() {
+            for (i, (t, after)) in z.trans.iter().enumerate() {
+                let before = if i == 0 { z.initial } else { z.trans[i - 1].1 };
+                if before == *after || *t < -5_000_000_000 {
+                    continue;
+                }
+                let near_midnight = |w: i64| {
+                    let s = w.rem_euclid(86_400);
+                    s <= 5400 || s >= 86_400 - 5400
+                };
+                let special = near_midnight(t + before) || near_midnight(t + after) || (after - before).abs() != 3600;
+                for _ in 0..(if special { 4 } else { 1 }) {
+                    out.push((z.name.clone(), *t));
+                }
+            }
+        }
+        out
+    })
+}
+
+
+/// listed transitions of real zones whose skipped wall-clock interval contains a local midnight strictly inside
+pub fn midnight_inside_gap_points() -> &'static Vec<(String, i64)> {
+    static T: std::sync::OnceLock<Vec<(String, i64)>> = std::sync::OnceLock::new();
+    T.get_or_init(|| {
+        let mut out = vec![];
+        for z in crate::props::c13::real_tables() {
+            for (i, (t, after)) in z.trans.iter().enumerate() {
+                let before = if i == 0 { z.initial } else { z.trans[i - 1].1 };
+                if *after > before && *t >= -5_000_000_000 {
+                    let (w0, w1) = (t + before, t + after);
+                    let m = (w0.div_euclid(86_400) + 1) * 86_400;
+                    if w0 < m && m < w1 {
+                        out.push((z.name.clone(), *t));
+                    }
+                }
+            }
+        }
+        out
+    })
 }
